@@ -2211,6 +2211,10 @@ impl<L: Logger> NetworkGraph<L> {
 				.expect("Time must be > 1970")
 				.as_secs();
 		}
+		#[cfg(ldk_verif)]
+		{
+			announcement_received_time = crate::util::verif::now().as_secs();
+		}
 
 		let chan_info = ChannelInfo {
 			features: msg.features.clone(),
@@ -2250,6 +2254,8 @@ impl<L: Logger> NetworkGraph<L> {
 		);
 		#[cfg(any(not(feature = "std"), fuzzing))]
 		let current_time_unix = None;
+		#[cfg(ldk_verif)]
+		let current_time_unix = Some(crate::util::verif::now().as_secs());
 
 		self.channel_failed_permanent_with_time(short_channel_id, current_time_unix)
 	}
@@ -2277,6 +2283,8 @@ impl<L: Logger> NetworkGraph<L> {
 		);
 		#[cfg(any(not(feature = "std"), fuzzing))]
 		let current_time_unix = None;
+		#[cfg(ldk_verif)]
+		let current_time_unix = Some(crate::util::verif::now().as_secs());
 
 		let node_id = NodeId::from_pubkey(node_id);
 		let mut channels = self.channels.write().unwrap();
@@ -2332,6 +2340,8 @@ impl<L: Logger> NetworkGraph<L> {
 	pub fn remove_stale_channels_and_tracking(&self) {
 		let time =
 			SystemTime::now().duration_since(UNIX_EPOCH).expect("Time must be > 1970").as_secs();
+		#[cfg(ldk_verif)]
+		let time = crate::util::verif::now().as_secs();
 		self.remove_stale_channels_and_tracking_with_time(time);
 	}
 
